@@ -33,6 +33,8 @@ type c18Case struct {
 	Comment  int    `json:"comment"` // parser configuration: 0 default, 1 the zero Config{}, 2 ';' as comment character
 	LongLine int    `json:"longline"` // > 0: a note line of that many bytes is inserted after the first heading
 	Warmup   int    `json:"warmup"`   // the same Parser value first parses this many other streams (the first with an error), drained to Done
+	Err      int    `json:"err"`      // failing-reader: index into c10Errors
+	Skip     int    `json:"skip"`     // seekable: permille of the text already consumed by the caller before parsing
 }
 
 func (c c18Case) config() parser.Config {
@@ -128,7 +130,12 @@ func checkC18(c c18Case, ctx *vCtx) *vFailure {
 	mkReader := func() io.Reader {
 		switch c.Input {
 		case "failing-reader":
-			return &vFaultReader{data: []byte(text), failAt: c.FailAt * len(text) / 1000, err: io.ErrUnexpectedEOF, chunks: c.Chunks}
+			return &vFaultReader{data: []byte(text), failAt: c.FailAt * len(text) / 1000, err: c10Errors[c.Err%len(c10Errors)], chunks: c.Chunks}
+		case "seekable":
+			// a seekable reader the caller has already read from: only the rest is to be parsed
+			r := strings.NewReader(text)
+			_, _ = r.Seek(int64(c.Skip*len(text)/1000), io.SeekStart)
+			return r
 		default:
 			return &vFaultReader{data: []byte(text), failAt: len(text) + 1, chunks: c.Chunks}
 		}
@@ -137,6 +144,10 @@ func checkC18(c c18Case, ctx *vCtx) *vFailure {
 	filePath := ""
 	if c.Input == "file" || c.Input == "fifo" {
 		filePath = vWriteFile("c18-input.yaml", text)
+	}
+	closedPath := ""
+	if c.Input == "closed-file" {
+		closedPath = vWriteFile("c18-closed.yaml", text)
 	}
 	fifoPath := filepath.Join(vScratchDir(), "c18-fifo")
 	if c.Input == "fifo" {
@@ -153,6 +164,19 @@ func checkC18(c c18Case, ctx *vCtx) *vFailure {
 		switch c.Input {
 		case "missing-file":
 			err = parser.ParseFileCallback(missing, cfg, func(n *shared.ParserNode, e error) (bool, error) { return e != nil, e })
+		case "closed-file":
+			f, e := os.Open(closedPath)
+			if e != nil {
+				vFault("open: %v", e)
+			}
+			f.Close()
+			err = parser.ParseStreamCallback(f, cfg, func(n *shared.ParserNode, e error) (bool, error) {
+				if e != nil {
+					return true, e
+				}
+				recs = append(recs, vGotFromNode(n))
+				return false, nil
+			})
 		case "file", "fifo": // the expectation for a named pipe is what the same content gives in a regular file
 			err = parser.ParseFileCallback(filePath, cfg, func(n *shared.ParserNode, e error) (bool, error) {
 				if e != nil {
@@ -246,6 +270,15 @@ func checkC18(c c18Case, ctx *vCtx) *vFailure {
 			p.ParseFile(fifoPath)
 		case "file":
 			p.ParseFile(filePath)
+		case "closed-file":
+			f, err := os.Open(closedPath)
+			if err != nil {
+				vFault("open: %v", err)
+			}
+			f.Close()
+			p.ParseStream(f)
+		case "seekable":
+			p.ParseStream(mkReader()) // handed over as it is, so that the parser sees the seekable type
 		default:
 			p.ParseStream(&vSlowReader{r: mkReader(), delays: c.ProdUS})
 		}
@@ -395,8 +428,10 @@ func genC18(t *rapid.T) c18Case {
 				c09Plant(t, &d, rapid.IntRange(1, 3).Draw(t, "k"), pool, "plant")
 			}
 		case kind <= 6:
-			c.Input = "failing-reader"
+			c.Input = []string{"failing-reader", "failing-reader", "failing-reader", "seekable", "closed-file"}[rapid.IntRange(0, 4).Draw(t, "readerkind")]
 			c.FailAt = rapid.IntRange(0, 1000).Draw(t, "failat")
+			c.Err = rapid.IntRange(0, 8).Draw(t, "err")
+			c.Skip = rapid.IntRange(0, 1000).Draw(t, "skip")
 		case kind == 7:
 			c.Input = "missing-file"
 		default:
@@ -425,6 +460,6 @@ func init() { vRegister("C18", "c18.schedules", checkC18) }
 
 func TestVerifC18Schedules(t *testing.T) {
 	vRapid(t, "C18", "c18.schedules",
-		"parser configurations {default, zero Config, ';' comments} x inputs {valid files, files with 1-3 malformed lines, files with a line of 4 KiB..140 KiB, empty / comment-only, reader failing at a drawn offset, missing file, real file and named pipe through ParseFile; the Parser value fresh or reused after other streams} x consumer policy {documented loop: stop at first error or Done; drain: keep receiving until Done} x drawn schedule (Gosched calls and 0-200 us sleeps before each receive, producer slowed by a reader with drawn delays and chunking, GOMAXPROCS in {1,2,16}), built with the race detector; differential against the callback parser stopping at its first error; after a drain the producer goroutine must have exited; non-trivial = the input has an error or >=2 records",
+		"parser configurations {default, zero Config, ';' comments} x inputs {valid files, files with 1-3 malformed lines, files with a line of 4 KiB..140 KiB, empty / comment-only, reader failing at a drawn offset with one of 9 error values, seekable reader already partly consumed, file closed before parsing, missing file, real file and named pipe through ParseFile; the Parser value fresh or reused after other streams} x consumer policy {documented loop: stop at first error or Done; drain: keep receiving until Done} x drawn schedule (Gosched calls and 0-200 us sleeps before each receive, producer slowed by a reader with drawn delays and chunking, GOMAXPROCS in {1,2,16}), built with the race detector; differential against the callback parser stopping at its first error; after a drain the producer goroutine must have exited; non-trivial = the input has an error or >=2 records",
 		vBudget(4800, 160000), genC18, checkC18)
 }
